@@ -1,0 +1,6 @@
+//go:build !verif
+
+package main
+
+// verifPoint is a no-op unless the command is built with -tags verif.
+func verifPoint(point, path string) {}
